@@ -1,5 +1,7 @@
 package vptree
 
+import "math"
+
 // C20 (vantage-point tree): a tree built by New from n points with SYMBOLIC
 // coordinates (duplicates and equidistant points are solver branches), with
 // every vantage choice the random source can make (rand.IntN is an arbitrary
@@ -111,8 +113,11 @@ type verifC20VPCase struct {
 	t   *Tree
 }
 
+// Natively (replays, translator validation) the Euclidean comparison is done on
+// math.Sqrt(sum), the very computation of Point.Distance, because squaring a
+// rounded root is not exact; in the engine's exact-real model both are the same.
 func (c *verifC20VPCase) key(d float64) float64 {
-	if c.l1 {
+	if c.l1 || !verifInEngine() {
 		return d
 	}
 	return d * d
@@ -122,7 +127,11 @@ func (c *verifC20VPCase) brute(p []float64) float64 {
 	if c.l1 {
 		return verifC20VPManhattan(p, c.q)
 	}
-	return verifC20VPDist2(p, c.q)
+	s := verifC20VPDist2(c.q, p)
+	if !verifInEngine() {
+		return math.Sqrt(s)
+	}
+	return s
 }
 
 func verifC20VPSetup(l1, query, symsrc bool) *verifC20VPCase {
